@@ -180,7 +180,7 @@ type c08Case struct {
 }
 
 func TestC08Responder(t *testing.T) {
-	ev.Rule("frame sequences (1-30 frames over: every SType 0..255, PType 0/non-0, header-only or with body, arbitrary session id / system bytes / byte 2 / byte 3; structured deselect->select->deselect, reject storms, orphan responses, Separate in each state, a second TCP connection) written in groups of 1-4 frames per TCP write to a real connection in both roles; oracle = ref/fsm.Responder, field-by-field comparison of every frame the library sent back + handler deliveries + State() at the quiescent end; non-trivial = the sequence crosses Selected<->NotSelected at least twice or contains >= 2 distinct reject classes")
+	ev.Rule("frame sequences (1-30 frames over: every SType 0..255, PType 0/non-0, header-only or with body, arbitrary session id / system bytes / byte 2 / byte 3; structured deselect->select->deselect, reject storms, orphan responses, Separate in each state, frames pipelined behind a Separate.req in the same write, a second TCP connection) written in groups of 1-4 frames per TCP write to a real connection in both roles; oracle = ref/fsm.Responder, field-by-field comparison of every frame the library sent back + handler deliveries + State() at the quiescent end; non-trivial = the sequence crosses Selected<->NotSelected at least twice or contains >= 2 distinct reject classes")
 	ev.Assume("A Select.rsp / Reject.req that refuses the library's own open Select.req while the peer's Select.req has already established the session, and responses whose system bytes equal an open transaction of another type, are not generated (E37 does not prescribe the outcome)")
 	vt.Bubble(t, func(t *testing.T) {
 		vt.CheckBubble(t, 20000, 1000000, func(rt *rapid.T) {
@@ -251,6 +251,7 @@ func runC08(rt *rapid.T, c c08Case) {
 	classes := map[string]bool{}
 	crossings := 0
 	disconnected := false
+	endedBySeparate := false
 	secondConnDone := false
 	for g := 0; g < nGroups && !disconnected; g++ {
 		if !c.active && !secondConnDone && rapid.IntRange(0, 9).Draw(rt, "secondConn") == 0 {
@@ -297,8 +298,31 @@ func runC08(rt *rapid.T, c c08Case) {
 			}
 			if eff.Disconnect {
 				disconnected = true
+				endedBySeparate = eff.Class == "separate-selected"
 				break
 			}
+		}
+		// (only behind a Separate.req: that one ends the session synchronously on the receive path. When
+		// the library itself decides to hang up - its own Select refused or rejected - it does so from
+		// another goroutine, and what the receive path reads meanwhile is still traffic on a live link.)
+		if endedBySeparate && rapid.Bool().Draw(rt, "pipelinedBehindTheEnd") {
+			// frames the peer pipelined BEHIND the connection-ending frame, in the same write: the
+			// session ended at that frame (E37 7.9.2) - none of them may be answered or delivered,
+			// however long the teardown takes to close the socket
+			for i, n := 0, rapid.IntRange(1, 3).Draw(rt, "trailing"); i < n; i++ {
+				var f e37.Frame
+				switch rapid.IntRange(0, 2).Draw(rt, "trailingKind") {
+				case 0:
+					f = e37.Control(e37.LinktestReq, 0xffff, 0, 0, 0x7a000000+uint32(g*8+i))
+				case 1:
+					f = e37.DataFrame(c.session, 1, 1, true, 0x7b000000+uint32(g*8+i), []byte{0x41, 0x04, 'l', 'a', 't', 'e'})
+				default:
+					f = e37.Control(e37.SelectReq, 0xffff, 0, 0, 0x7c000000+uint32(g*8+i))
+				}
+				frames = append(frames, f)
+				hist = append(hist, fmt.Sprintf("%v  => pipelined behind the end of the session: ignored", f))
+			}
+			classes["pipelined-behind-the-end"] = true
 		}
 		if err := p.Send(frames...); err != nil {
 			fail("peer write failed: %v", err)
